@@ -329,8 +329,10 @@ def parse_facebook_url(url, allow_relative_urls=False):
         return None
 
     # NOTE: repeated slashes are collapsed, as facebook itself does: an empty
-    # path segment is neither an id nor a handle
-    splitted = splitted._replace(path=SLASH_SQUEEZE_RE.sub("/", splitted.path))
+    # path segment is neither an id nor a handle, nor is a blank at an end of
+    # a segment part of one (at the end of the url built from it, it is lost)
+    path = "/".join(part.strip() for part in splitted.path.split("/"))
+    splitted = splitted._replace(path=SLASH_SQUEEZE_RE.sub("/", path))
 
     if not splitted.path or splitted.path == "/":
         return None
